@@ -85,6 +85,9 @@ class Session:
     def _run(self, op):
         if op["op"] == "other_worklist":
             return self._other_worklist(op)
+        if op["op"] == "via_other":
+            # the same labware objects, pipetted through another worklist object (another robot on the same deck)
+            return opsmod.exec_op(self.rt, self.others[op["k"]], self.labs, op["inner"], self.buffers)
         return opsmod.exec_op(self.rt, self.wl, self.labs, op, self.buffers)
 
     def step(self, op, inject=None, trace=False):
